@@ -119,14 +119,28 @@ def step (line : String) : String :=
   | "opt" :: rest =>
     -- optimizer runs are checked by the harness' oracle; the expected observation is constant
     if rest.length == 8 || rest.length == 9 then s!"opt ok steps={rest.getD 6 "?"}" else "bad-op"
-  | "sel" :: ind :: rest =>
+  | "sel" :: ind :: rest0 =>
+    let rest := rest0.takeWhile (· ≠ "aux")
+    let auxT := (rest0.dropWhile (· ≠ "aux")).drop 1
     match rest.mapM String.toInt? with
     | some (mu :: m :: n :: nums0) =>
       let hvr := ind == "hvr"
       let nums := if hvr then nums0.drop m.toNat else nums0
       let S := chunk m.toNat n.toNat nums
       let ranks := fastSort S
-      match indicatorOf (if hvr then "hv" else ind) m.toNat (if hvr then nums0.take m.toNat else refAbove m.toNat S) with
+      -- NSGA-III: the association step (floating point) is an observed input
+      let nsga3 : Option (List Pt → Indicator) :=
+        match auxT.mapM String.toNat? with
+        | some (nz :: kv) =>
+          if ind == "nsga3" then
+            let assoc := (List.range (kv.length / 2)).map fun i => (kv.getD (2 * i) 0, kv.getD (2 * i + 1) 0)
+            some fun _ => fun _front archive K => nsga3Least nz archive.length assoc K
+          else none
+        | _ => none
+      let modelled := match nsga3 with
+        | some f => some f
+        | none => indicatorOf (if hvr then "hv" else ind) m.toNat (if hvr then nums0.take m.toNat else refAbove m.toNat S)
+      match modelled with
       | some mk =>
         let flags := select (mk S) ranks mu.toNat
         let (r, _) := lastFront ranks mu.toNat
